@@ -112,7 +112,19 @@ package table
 //@ func (*Writer).flushPendingBH
 //@   trusted
 //@   ensures [C06,C13:data-block-state-kept] base(w.dataBlock.prevKey) == old(base(w.dataBlock.prevKey)) && w.nEntries == old(w.nEntries)
+// C16 / C13: after a data block is written the filter writer is told where the NEXT block will start - the offset
+// behind the block's trailer. The reader picks the filter of a block by the block's start offset; told the end of the
+// block without its trailer, the writer assigns the keys of a following block that starts within five bytes of a
+// partition boundary to the partition before, and a lookup of those keys is answered "not there".
+// (two blocks: the first is verified under C16; under C06 / C13 callers see the function through the trusted summary)
 //@ func (*Writer).finishBlock
+//@   props C16
+//@   safety off
+//@   assumepre
+//@   at before call (*filterWriter).flush#1
+//@     assert [C16:the-filter-writer-is-told-where-the-next-block-starts] arg0 == w.offset && w.offset == w.pendingBH.offset + w.pendingBH.length + blockTrailerLen
+//@ func (*Writer).finishBlock
+//@   props C06 C13
 //@   trusted
 //@   ensures [C06,C13:entry-count-kept] w.nEntries == old(w.nEntries)
 
